@@ -16,6 +16,7 @@
 import Ipv8.C10.Lemmas
 import Ipv8.C10.Source
 import Ipv8.C10.AsyncTask
+import Ipv8.C10.TaskMgr
 
 namespace Ipv8.C10
 
@@ -151,22 +152,30 @@ theorem reregistration_inside_on_timeout (s : St) (c : Nat) :
       simp only [upd_apply, Cache.completeFuts]
       split <;> simp_all
   · simp only [step]
-    split <;> exact ⟨rfl, fun _ => rfl⟩
+    split
+    · exact ⟨rfl, fun _ => rfl⟩
+    · refine ⟨rfl, fun c' => ?_⟩
+      simp only [upd_apply, Cache.completeFuts]
+      split <;> simp_all
 
-/-- FUTURES COMPLETED ON TIMEOUT.  When `_on_timeout` of c returns normally, every managed future of c that is
-    still pending gets its on_timeout value (exception if it is an Exception instance, result otherwise); none is left
-    pending.  Holds in every state, for every on_timeout body. -/
-theorem futures_completed_on_timeout (s : St) (c : Nat) (hr : s.running = some c) :
-    (step s .fireEnd).2 = .fired c
-      ∧ ((step s .fireEnd).1.caches c).futs = (s.caches c).futs.map Fut.complete
-      ∧ (∀ f ∈ ((step s .fireEnd).1.caches c).futs, f.st ≠ .pending)
+/-- FUTURES COMPLETED ON TIMEOUT.  When `_on_timeout` of c is over — whether `on_timeout()` returned (`fireEnd`) or
+    raised (`fireAbort`; the completion loop sits in a `finally`) — every managed future of c that is still pending
+    gets its on_timeout value (exception if it is an Exception instance, result otherwise); none is left pending.
+    Holds in every state, for every on_timeout body. -/
+theorem futures_completed_on_timeout (s : St) (c : Nat) (hr : s.running = some c) (e : Ev)
+    (he : e = .fireEnd ∨ e = .fireAbort) :
+    ((step s e).2 = .fired c ∨ (step s e).2 = .aborted c)
+      ∧ ((step s e).1.caches c).futs = (s.caches c).futs.map Fut.complete
+      ∧ (∀ f ∈ ((step s e).1.caches c).futs, f.st ≠ .pending)
       ∧ (∀ f, f.st = .pending → (Fut.complete f).st = if f.isExc then .exception else .result) := by
-  refine ⟨by simp [step, hr], by simp [step, hr, Cache.completeFuts], ?_, ?_⟩
-  · intro f hf
-    simp only [step, hr, upd_same, Cache.completeFuts, List.mem_map] at hf
-    obtain ⟨g, _, rfl⟩ := hf
-    exact complete_not_pending g
-  · intro f hf; simp [Fut.complete, hf]
+  rcases he with rfl | rfl
+  all_goals
+    refine ⟨by simp [step, hr], by simp [step, hr, Cache.completeFuts], ?_, ?_⟩
+    · intro f hf
+      simp only [step, hr, upd_same, Cache.completeFuts, List.mem_map] at hf
+      obtain ⟨g, _, rfl⟩ := hf
+      exact complete_not_pending g
+    · intro f hf; simp [Fut.complete, hf]
 
 /-- SHUTDOWN IS FINAL.  After an accepted shutdown: the managed futures of every request that was outstanding are
     cancelled (none pending); in every continuation no timeout fires and nothing is registered; and every `add` of a
@@ -225,6 +234,28 @@ theorem future_done_is_permanent (s : St) (evs : List Ev) (c i : Nat) (f : Fut) 
       omega
     exact ih _ hn (fut_done_stable' s e c i f hc hf hd)
 
+/-- … and that is permanent: along every history, once the timeout of c has been handled (normally or by an
+    exception), each managed future c had at that moment is done and keeps exactly that state for ever (so nobody
+    awaiting it can hang, and a later shutdown has nothing left to cancel). -/
+theorem timed_out_futures_stay_done (evs1 evs2 : List Ev) (c i : Nat) (f : Fut) (e : Ev)
+    (he : e = .fireEnd ∨ e = .fireAbort)
+    (hr : (final init evs1).running = some c)
+    (hf : ((final init (evs1 ++ [e])).caches c).futs[i]? = some f) :
+    f.st ≠ .pending ∧ ((final init (evs1 ++ [e] ++ evs2)).caches c).futs[i]? = some f := by
+  have hstep : final init (evs1 ++ [e]) = (step (final init evs1) e).1 := by
+    simp [final_append, final_cons, final_nil]
+  have hdone : f.st ≠ .pending := by
+    have h3 := (futures_completed_on_timeout (final init evs1) c hr e he).2.2.1
+    rw [hstep] at hf
+    exact h3 f (List.mem_of_getElem? hf)
+  refine ⟨hdone, ?_⟩
+  have hc : c < (final init (evs1 ++ [e])).n := by
+    have := (reach_inv evs1).runOk c hr
+    rw [hstep]
+    rcases he with rfl | rfl <;> simp [step, hr] <;> exact this
+  rw [final_append]
+  exact future_done_is_permanent _ evs2 c i f hc hf hdone
+
 /-- CLEAR drops every outstanding request: afterwards nothing is outstanding, so (by `resolved_is_final`) none of the
     dropped registrations is claimed or timed out later. -/
 theorem clear_drops_everything (evs1 evs2 : List Ev) (c : Nat)
@@ -279,22 +310,64 @@ theorem find_unclaimed_sound (s : St) (p : Nat) (cands : List Nat) (d : Option N
     · injection h with _ hx; subst hx
       exact ⟨hm, by simpa using hp⟩
 
-/-- EXACTLY ONCE.  In a history without `clear`/`shutdown`, for every cache object:
-    registrations = claims + timeouts + (1 if it is outstanding now).  So every registration that is no longer
-    outstanding was resolved by exactly one claim or exactly one timeout — never both, never neither — and by
-    `timeout_exactly_at_deadline` an outstanding one is still before its deadline. -/
-theorem exactly_once (evs : List Ev) (c : Nat) (hnodrop : ∀ e ∈ evs, isDrop e = false) :
-    (trace init evs).count (.claimed c) + (trace init evs).count (.timedOut c)
-        + (if ((final init evs).caches c).task.isSome = true then 1 else 0)
-      = (trace init evs).count (.added c) := by
-  have h := run_count_eq init evs c inv_init hnodrop
-  have h0 : outN init c = 0 := by simp [outN, init]
-  simp only [outN] at h h0
-  omega
+/-- EXACTLY ONCE.  Take any reachable state (after an arbitrary history `evs1`, which may contain clear/shutdown) and
+    any continuation `evs2` in which `clear`/`shutdown` never hit request c *while it is outstanding* (they may occur
+    at any other time).  Then over `evs2`:
+        claims of c + timeouts of c + [c outstanding at the end] = registrations of c + [c outstanding at the start].
+    So every registration that is not dropped by clear/shutdown and is no longer outstanding was resolved by exactly
+    one claim or exactly one timeout — never both, never neither; and by `timeout_exactly_at_deadline` one that is
+    still outstanding is still before its deadline. -/
+theorem exactly_once (evs1 evs2 : List Ev) (c : Nat)
+    (hnodrop : NoDropWhileOutstanding (final init evs1) c evs2) :
+    (trace (final init evs1) evs2).count (.claimed c) + (trace (final init evs1) evs2).count (.timedOut c)
+        + (if ((final init (evs1 ++ evs2)).caches c).task.isSome = true then 1 else 0)
+      = (trace (final init evs1) evs2).count (.added c)
+        + (if ((final init evs1).caches c).task.isSome = true then 1 else 0) := by
+  have h := run_count_eq' (final init evs1) evs2 c (reach_inv evs1) hnodrop
+  rw [← final_append] at h
+  simpa only [outN] using h
+
+/-- PROGRESS.  The two things the environment can always do for a due request, in every reachable state:
+    (a) if no on_timeout is executing and c's timer is due (`deadline ≤ now`), the timeout of c is enabled — `fireBegin c`
+        is answered `timedOut c`; (b) an executing on_timeout can always end (`fireEnd` → `fired`, `fireAbort` →
+        `aborted`); (c) when time is refused to advance to `t` (rule R3), there IS a waiting timer with deadline < t, and
+        each such timer is enabled once on_timeout is not executing and time has reached its deadline.  Together with
+        `timeout_exactly_at_deadline`: an outstanding request is never stuck — the only thing assumed (R3) is that the
+        loop does run a due timer before letting time pass. -/
+theorem timeout_enabled_when_due (evs : List Ev) (c : Nat) :
+    let s := final init evs
+    (∀ dl, s.running = none → (s.caches c).task = some dl → dl ≤ s.now → (step s (.fireBegin c)).2 = .timedOut c)
+    ∧ (s.running = some c → (step s .fireEnd).2 = .fired c ∧ (step s .fireAbort).2 = .aborted c)
+    ∧ (∀ t l, (step s (.tick t)).2 = .overdue l → l ≠ [] →
+          ∀ c' ∈ l, ∃ dl, (s.caches c').task = some dl ∧ dl < t) := by
+  intro s
+  have h := reach_inv evs
+  refine ⟨?_, ?_, ?_⟩
+  · intro dl hr ht hle
+    have hn : ¬ s.n ≤ c := by
+      intro hge
+      have := h.fresh_none c hge
+      rw [this] at ht; cases ht
+    have hd : ¬ s.now < dl := by omega
+    simp [step, hr, hn, ht, hd]
+  · intro hr; simp [step, hr]
+  · intro t l hl hne c' hc'
+    have hmem : c' ∈ overdueList s t := by
+      by_cases hrun : s.running.isSome = true
+      · simp [step, hrun] at hl
+      by_cases hlt : t < s.now
+      · simp [step, hrun, hlt] at hl
+      cases hov : overdueList s t with
+      | nil => simp [step, hrun, hlt, hov] at hl; exact absurd hl hne
+      | cons a r => simp [step, hrun, hlt, hov] at hl; rw [hl]; exact hc'
+    simp only [overdueList, List.mem_filter, List.mem_range] at hmem
+    cases ht : (s.caches c').task with
+    | none => simp [ht] at hmem
+    | some dl => exact ⟨dl, rfl, by simpa [ht] using hmem.2⟩
 
 /-- THE PROPERTY, in one statement.  For every history and every cache object c:
-    (1) claims + timeouts never exceed registrations, with equality up to "still outstanding" when nothing was dropped
-        by clear/shutdown;
+    (1) claims + timeouts never exceed registrations, with equality up to "still outstanding" when clear/shutdown never
+        hit c while it was outstanding;
     (2) c is outstanding exactly while the table maps its identity to it, and then no other object with that identity
         is outstanding;
     (3) an outstanding request has not passed its deadline (its timeout is due exactly at the deadline);
@@ -303,7 +376,7 @@ theorem each_request_resolved_exactly_once (evs : List Ev) (c : Nat) :
     let s := final init evs
     let tr := trace init evs
     (tr.count (.claimed c) + tr.count (.timedOut c) ≤ tr.count (.added c))
-    ∧ ((∀ e ∈ evs, isDrop e = false) →
+    ∧ (NoDropWhileOutstanding init c evs →
          tr.count (.claimed c) + tr.count (.timedOut c) + (if (s.caches c).task.isSome = true then 1 else 0)
            = tr.count (.added c))
     ∧ (outstanding s c ↔ lookup (s.caches c).ident s.ids = some c)
@@ -312,7 +385,16 @@ theorem each_request_resolved_exactly_once (evs : List Ev) (c : Nat) :
     ∧ (s.shutdown = true → ¬ outstanding s c) := by
   intro s tr
   have h := reach_inv evs
-  refine ⟨at_most_once evs c, exactly_once evs c, outstanding_iff_registered evs c, ?_, ?_, ?_⟩
+  have hex : NoDropWhileOutstanding init c evs →
+      tr.count (.claimed c) + tr.count (.timedOut c) + (if (s.caches c).task.isSome = true then 1 else 0)
+        = tr.count (.added c) := by
+    intro hnd
+    have := exactly_once [] evs c hnd
+    simp only [List.nil_append, final_nil] at this
+    have h0 : ((init.caches c).task.isSome = true) = False := by simp [init]
+    simp only [h0, if_false, Nat.add_zero] at this
+    exact this
+  refine ⟨at_most_once evs c, hex, outstanding_iff_registered evs c, ?_, ?_, ?_⟩
   · intro c' ho ho' hid
     have hl := h.taskOk c ho
     exact (unique_identity evs _ _ c (by simpa [Cache.ident] using hl)).2.2 c' ho' (by simpa [Cache.ident] using hid)
@@ -353,6 +435,98 @@ theorem cancel_before_body_wins (d : Bool) (es1 es2 : List AsyncTask.Ev)
       cases t.phase <;> simp [hnot]
     exact AsyncTask.cancelSeen_run _ es2 h1
   exact (hg.cancelWins hseen).1
+
+/-! ### TaskManager level (TaskMgr.lean): several Tasks per cache object, `_pending_tasks`, the done-callback window.
+    This is what `Model.lean` abbreviates by `Cache.task : Option _`.  `Gen.doneCbGuarded` is read from
+    taskmanager.py on every run; with the unguarded callback of the original code these theorems are false
+    (witness below), so reverting /repo c10513c breaks them. -/
+
+/-- every Task that can still enter `_on_timeout` is the one registered under its cache object — for every history
+    of register / cancel_pending_task / loop steps / done callbacks, any number of Tasks per cache -/
+theorem tm_live_task_is_registered (es : List TaskMgr.Ev) (i : Nat)
+    (hl : TaskMgr.live (TaskMgr.run Gen.doneCbGuarded TaskMgr.init es) i) :
+    (TaskMgr.run Gen.doneCbGuarded TaskMgr.init es).pending
+      ((TaskMgr.run Gen.doneCbGuarded TaskMgr.init es).tasks i).owner = some i :=
+  (TaskMgr.run_inv TaskMgr.init es TaskMgr.inv_init).liveReg i hl
+
+/-- hence at most one live timeout Task per cache object (what `Option` in the model says) -/
+theorem tm_one_live_task_per_cache (es : List TaskMgr.Ev) (i j : Nat)
+    (hi : TaskMgr.live (TaskMgr.run Gen.doneCbGuarded TaskMgr.init es) i)
+    (hj : TaskMgr.live (TaskMgr.run Gen.doneCbGuarded TaskMgr.init es) j)
+    (ho : ((TaskMgr.run Gen.doneCbGuarded TaskMgr.init es).tasks i).owner
+        = ((TaskMgr.run Gen.doneCbGuarded TaskMgr.init es).tasks j).owner) : i = j := by
+  have h1 := tm_live_task_is_registered es i hi
+  have h2 := tm_live_task_is_registered es j hj
+  rw [ho, h2] at h1
+  exact (Option.some.inj h1).symm
+
+/-- `cancel_pending_task(cache)` is effective: after it, until the cache is registered again, NO Task ever registered
+    under that cache enters `_on_timeout` — whatever the loop does, including done callbacks of older Tasks running
+    late (the pop / clear / shutdown → "its timeout never fires" step of the property, at Task granularity). -/
+theorem tm_cancel_is_effective (es1 es2 : List TaskMgr.Ev) (c : Nat)
+    (hnoreg : ∀ e ∈ es2, TaskMgr.isRegister c e = false) :
+    let m1 := TaskMgr.step Gen.doneCbGuarded (TaskMgr.run Gen.doneCbGuarded TaskMgr.init es1) (.cancelName c)
+    let m2 := TaskMgr.run Gen.doneCbGuarded m1 es2
+    (∀ i, i < m1.n → (m1.tasks i).owner = c → (m2.tasks i).t.bodyRuns = (m1.tasks i).t.bodyRuns)
+    ∧ (∀ i, m1.n ≤ i → i < m2.n → (m2.tasks i).owner ≠ c) := by
+  intro m1 m2
+  have h0 := TaskMgr.run_inv TaskMgr.init es1 TaskMgr.inv_init
+  have h1 : TaskMgr.Inv m1 := TaskMgr.step_inv _ _ h0
+  have hq : TaskMgr.Quiet m1 c := TaskMgr.quiet_after_cancel _ c h0
+  -- generalise over the state after the cancel
+  suffices H : ∀ (m : TaskMgr.TM), TaskMgr.Inv m → TaskMgr.Quiet m c → ∀ es, (∀ e ∈ es, TaskMgr.isRegister c e = false) →
+      (∀ i, i < m.n → (m.tasks i).owner = c →
+          ((TaskMgr.run true m es).tasks i).t.bodyRuns = (m.tasks i).t.bodyRuns ∧ ((TaskMgr.run true m es).tasks i).owner = c)
+      ∧ m.n ≤ (TaskMgr.run true m es).n
+      ∧ (∀ i, m.n ≤ i → i < (TaskMgr.run true m es).n → ((TaskMgr.run true m es).tasks i).owner ≠ c) by
+    have := H m1 h1 hq es2 hnoreg
+    exact ⟨fun i hi ho => (this.1 i hi ho).1, this.2.2⟩
+  intro m hm hqm es
+  induction es generalizing m with
+  | nil => intro _; exact ⟨fun i _ ho => ⟨rfl, ho⟩, Nat.le_refl _, fun i h1 h2 => by simp [TaskMgr.run] at h2; omega⟩
+  | cons e es ih =>
+    intro hno
+    have hs := TaskMgr.quiet_step m c e hm hqm (hno e (by simp))
+    have hrec := ih (TaskMgr.step true m e) (TaskMgr.step_inv m e hm) hs.1 (fun e' he' => hno e' (by simp [he']))
+    refine ⟨?_, by have := hs.2.2.2.1; have := hrec.2.1; simp only [TaskMgr.run]; omega, ?_⟩
+    · intro i hi ho
+      have ho' : ((TaskMgr.step true m e).tasks i).owner = c := by rw [hs.2.2.1 i hi]; exact ho
+      have := hrec.1 i (by have := hs.2.2.2.1; omega) ho'
+      simp only [TaskMgr.run]
+      exact ⟨by rw [this.1, hs.2.1 i hi ho], this.2⟩
+    · intro i h1 h2
+      simp only [TaskMgr.run] at h2 ⊢
+      by_cases hlt : i < (TaskMgr.step true m e).n
+      · have hne := hs.2.2.2.2 i h1 hlt
+        intro hc
+        have hkeep : ∀ es' (m' : TaskMgr.TM), TaskMgr.Inv m' → i < m'.n →
+            ((TaskMgr.run true m' es').tasks i).owner = (m'.tasks i).owner := by
+          intro es'
+          induction es' with
+          | nil => intro m' _ _; rfl
+          | cons e' es' ih' =>
+            intro m' hm' hi'
+            simp only [TaskMgr.run]
+            rw [ih' _ (TaskMgr.step_inv m' e' hm') (by have := TaskMgr.step_n_mono true m' e'; omega)]
+            exact TaskMgr.step_owner true m' e' i hi'
+        rw [hkeep es _ (TaskMgr.step_inv m e hm) hlt] at hc
+        exact hne hc
+      · exact hrec.2.2 i (by omega) h2
+
+/-- the original callback (`_pending_tasks.pop(name)` unconditionally): cancel; register again; the OLD Task's done
+    callback removes the NEW Task's entry; the next cancel does nothing; the new Task enters `_on_timeout` although its
+    name was cancelled — the defect repaired by /repo c10513c, as a run of this model -/
+example :
+    let m := TaskMgr.run false TaskMgr.init
+      [.register 0 true, .cancelName 0, .register 0 true, .loop 0 .step, .doneCb 0,
+       .cancelName 0, .loop 1 .step, .loop 1 .timer, .loop 1 .step]
+    (m.tasks 1).t.bodyRuns = 1 ∧ m.pending 0 = none := by decide
+/-- … and with the guarded callback the same history ends with the new Task cancelled, body never entered -/
+example :
+    let m := TaskMgr.run true TaskMgr.init
+      [.register 0 true, .cancelName 0, .register 0 true, .loop 0 .step, .doneCb 0,
+       .cancelName 0, .loop 1 .step, .loop 1 .timer, .loop 1 .step]
+    (m.tasks 1).t.bodyRuns = 0 ∧ (m.tasks 1).t.phase = .cancelled := by decide
 
 /-! ### the model's `step` IS what the source says (statement sequences regenerated from requestcache.py)
 
@@ -415,6 +589,12 @@ theorem fireEnd_follows_source (s : St) : fireEndViaSource s = step s .fireEnd :
   cases hr : s.running with
   | none => simp [step, hr]
   | some c => simp [step, hr, afterCall, Gen.onTimeoutOps, runPrims, prim]
+theorem fireAbort_follows_source (s : St) : fireAbortViaSource s = step s .fireAbort := by
+  unfold fireAbortViaSource
+  cases hr : s.running with
+  | none => simp [step, hr]
+  | some c => simp [step, hr, Gen.onTimeoutAbortOps, runPrims, prim]
+
 /-! ### non-vacuity: concrete histories exercising the hypotheses -/
 
 /-- two caches with the same identity (0,1): the second constructor raises, the first is claimed, a late fire is
@@ -447,6 +627,13 @@ example : (AsyncTask.run { delayed := true } [.step, .timer, .cancel, .step]).bo
     ∧ (AsyncTask.run { delayed := true } [.step, .timer, .cancel, .step]).phase = .cancelled := by decide
 example : (AsyncTask.run { delayed := true } [.step, .timer, .step, .cancel, .bodyEnd]).bodyRuns = 1 := by decide
 example : (AsyncTask.run { delayed := false } [.cancel, .step, .step]).bodyRuns = 0 := by decide
+/-- on_timeout raises: the futures are completed all the same; a later shutdown finds nothing pending -/
+example : ((final init [.mk 0 1 (some 250) 0 [false, true], .add 0, .tick 250, .fireBegin 0, .fireAbort,
+                        .shutdown]).caches 0).futs.map (·.st) = [.result, .exception] := by decide
+/-- exactly_once across a clear: the clear at the start does not spoil the count for the request registered after it -/
+example : NoDropWhileOutstanding (final init [.mk 0 1 (some 250) 0 [], .add 0, .clear]) 1
+    [.mk 0 1 (some 250) 0 [], .clear, .add 1, .pop 0 1] := by
+  refine ⟨by decide, by decide, by decide, by decide, trivial⟩
 /-- clear drops an outstanding request: its timer never fires, a late pop finds nothing -/
 example : trace init [.mk 0 1 (some 1000) 0 [false], .add 0, .clear, .tick 1000, .fireBegin 0, .pop 0 1]
     = [.okMk 0 1, .added 0, .done, .overdue [], .refused, .keyError] := by decide
